@@ -245,6 +245,9 @@ def gen_stack(rng, rs, spec, names, priced, prefix, opts, is_child=False):
         ws += ["erc", "meanvar"]
     if opts.get("leverage"):
         ws = ["specified", "specified", "equal", "target"]
+    if opts.get("plain_weighers"):
+        # allocating among strategies: a flat child index has zero volatility, and a NaN weight sent to a strategy child is silently booked as NaN cash
+        ws = ["equal", "specified", "target"] + ([] if deterministic else ["randomly"])
     w = rng.choice(ws)
     sum_to_one = False
     if w in ("specified", "target") and not priced:
@@ -295,7 +298,7 @@ def gen_stack(rng, rs, spec, names, priced, prefix, opts, is_child=False):
     if rng.random() < 0.15:
         st.append({"a": "ScaleWeights", "args": [rng.choice([0.5, 0.9, -0.5, 1.3])]})
         desc.append("scale")
-    if rng.random() < 0.12 and nd >= 30:
+    if rng.random() < 0.12 and nd >= 30 and not opts.get("plain_weighers"):
         st.append({"a": "TargetVol", "args": [rng.choice([0.05, 0.15])], "kw": {"lookback": {"$off": {"days": 20}}, "lag": lag}})
         st.insert(1, {"a": "RunAfterDays", "args": [16]})
         desc.append("targetvol")
@@ -393,7 +396,7 @@ def gen(cs, **opts):
                     desc["g%d%d" % (i, j)] = gd
                 gnames = [g["name"] for g in gkids]
                 own = [t for t in tks if t in priced][: rng.randint(0, 1)]
-                st, d = gen_stack(rng, rs, spec, gnames + own, gnames + own, "c%d_m_" % i, dict(opts, flows=False, pte=False, solvers=False), is_child=True)
+                st, d = gen_stack(rng, rs, spec, gnames + own, gnames + own, "c%d_m_" % i, dict(opts, flows=False, pte=False, solvers=False, plain_weighers=True), is_child=True)
                 kids_i = gkids + [{"type": "lazy", "name": t} for t in own]
                 d = ["mid"] + d
             subs.append({"type": "strat", "name": "sub%d" % i, "algos": st, "children": kids_i})
